@@ -1,5 +1,6 @@
 import Driver.Util
 import DiskfsModel.Model.Sync
+import DiskfsModel.Model.SyncFault
 import DiskfsModel.Generated.SyncFs
 /-!
   Model driver for the syncfs engine (C16).
@@ -7,6 +8,9 @@ import DiskfsModel.Generated.SyncFs
   syncfs.copy    readlink=0|1 tree=<enc>            → ok=0|1 ops=<op log>
   syncfs.compare ra=<beh> rb=<beh> a=<enc> b=<enc>  → res=ok|<kind>:<path>
   syncfs.big     size=N                             → writes= full= last= sum=   (streaming path, sizes only)
+  syncfs.copyfault readlink= tree= plan=<plan>      → ok=0|1 ops=<calls issued>  (Model/SyncFault.lean)
+  syncfs.bigfault  size=N rb=<beh> plan=<plan>      → ok= writes= last= sum=     (streaming path under a fault plan)
+  plan: at:K:fail | at:K:short:N | caps:a,b,…  (outcome of the K-th destination call / every Write takes at most caps[i mod n] bytes)
 
   Tree text: tokens joined by "/":  D<name> … E | F<size>:<pat>[@pos=val]:<name> | L<target, / as |>:<name> | O<name>.
   File content is the function the harness uses: byte i = pat + i + 3*(i/256) + 5*(i/65536) (mod 256),
@@ -121,6 +125,29 @@ def big (args : List String) : String :=
   let sum := lens.foldl (· + ·) 0
   s!"writes={lens.length}\tfull={full}\tlast={lens.getLast?.getD 0}\tsum={sum}"
 
+/-- the fault plans the engine uses -/
+def parsePlan (s : String) : Plan :=
+  match s.splitOn ":" with
+  | ["at", k, "fail"] => planAt k.toNat! .fail
+  | ["at", k, "short", n] => planAt k.toNat! (.short n.toNat!)
+  | ["caps", cs] => planCaps (natList cs)
+  | _ => fun _ => .ok
+
+def copyFault (args : List String) : String :=
+  let t := parseTree ((arg args "tree").getD "-")
+  let rl := argNatD args "readlink" 1 == 1
+  let r := copyRunF cfg fullReader rl (parsePlan ((arg args "plan").getD "-")) t
+  let ops := if r.log.isEmpty then "-" else ";".intercalate (r.log.map fun e => opStr e.1)
+  s!"ok={if r.ok then 1 else 0}\tops={ops}"
+
+/-- the synthetic source is one directory `d` holding `big.img`: Mkdir is call 0, OpenFile call 1, the Writes start at call 2 -/
+def bigFault (args : List String) : String :=
+  let size := argNatD args "size"
+  let lens := fileWriteLens cfg (parseBeh ((arg args "rb").getD "full|0")) size
+  let r := streamLensF (parsePlan ((arg args "plan").getD "-")) lens 2
+  let sum := r.1.foldl (· + ·) 0
+  s!"ok={if r.2.1 then 1 else 0}\twrites={r.1.length}\tlast={r.1.getLast?.getD 0}\tsum={sum}"
+
 end Driver.SyncFs
 
 def main : IO Unit := Driver.runLoop fun op args =>
@@ -128,4 +155,6 @@ def main : IO Unit := Driver.runLoop fun op args =>
   | "syncfs.copy" => Driver.SyncFs.copy args
   | "syncfs.compare" => Driver.SyncFs.compare args
   | "syncfs.big" => Driver.SyncFs.big args
+  | "syncfs.copyfault" => Driver.SyncFs.copyFault args
+  | "syncfs.bigfault" => Driver.SyncFs.bigFault args
   | _ => "unknown-op"
